@@ -55,6 +55,10 @@ type harnessFile struct {
 
 // harnessFilesFor finds harness files for a property: /verif/harness/<pkgRel>/zz_verif_<PROP>*.go,
 // plus shared helper files zz_verif_common*.go in the same directories.
+// staleHarness lists harness files that no longer compile against the current tree (an internal function they call
+// changed its signature, for instance): they are left out, reported, and counted as inconclusive.
+var staleHarness = map[string]string{}
+
 func harnessFilesFor(prop string) map[string][]string {
 	out := map[string][]string{}
 	root := filepath.Join(verifRoot, "harness")
@@ -68,6 +72,9 @@ func harnessFilesFor(prop string) map[string][]string {
 			return nil
 		}
 		base := filepath.Base(p)
+		if _, stale := staleHarness[p]; stale {
+			return nil
+		}
 		if strings.HasPrefix(base, "zz_verif_"+prop+"_") || base == "zz_verif_"+prop+".go" {
 			if dir == "root" {
 				dir = ""
@@ -216,6 +223,42 @@ func runCheck(prop string, o *checkOpts) int {
 		}
 		tl := time.Now()
 		prog, err := exec.Load(repoDir, dir, ov)
+		for tries := 0; err != nil && tries < 8; tries++ {
+			// harness files of this property that do not compile against the current tree are dropped (not the shared ones)
+			dropped := false
+			for _, f := range files[dir] {
+				base := filepath.Base(f)
+				if strings.HasPrefix(base, "zz_verif_common") {
+					continue
+				}
+				if _, done := staleHarness[f]; done {
+					continue
+				}
+				if i := strings.Index(err.Error(), "/"+base+":"); i >= 0 {
+					line := err.Error()[i+1:]
+					if j := strings.Index(line, "\n"); j >= 0 {
+						line = line[:j]
+					}
+					staleHarness[f] = line
+					fmt.Printf("STALE-HARNESS property=%s file=%s: does not compile against the current tree (%s); its harnesses are not run\n", prop, base, line)
+					dropped = true
+				}
+			}
+			if !dropped {
+				break
+			}
+			var keep []string
+			for _, f := range files[dir] {
+				if _, stale := staleHarness[f]; !stale {
+					keep = append(keep, f)
+				}
+			}
+			files[dir] = keep
+			ov, err = buildOverlay(dir, keep)
+			if err == nil {
+				prog, err = exec.Load(repoDir, dir, ov)
+			}
+		}
 		if err != nil {
 			fmt.Fprintf(os.Stderr, "LOAD-FAILED %s: %v\n", dir, err)
 			loadFailed = true
@@ -334,7 +377,7 @@ func runCheck(prop string, o *checkOpts) int {
 	}
 	writeEvidence(prop, o, results, confirmed, knownHits, time.Since(t0), false, validated, validationFailed)
 	if exit == 0 {
-		incon := 0
+		incon := len(staleHarness)
 		for _, r := range results {
 			incon += r.Inconclusive + len(r.Undischarged)
 			if r.Truncated {
